@@ -54,6 +54,26 @@ TARGETS = [
     ("src/internal/propset.rs", "PropertySet", "read", "readers"),
     ("src/internal/language.rs", "Language", "from_tag", "language"),
     ("src/internal/table.rs", "Table", "index_for_column_name", "expr"),
+    ("src/internal/table.rs", "Table", "read_rows", "rows"),
+    ("src/internal/language.rs", "Language", "tag", "language"),
+    ("src/internal/codepage.rs", "CodePage", "encode", "codepage"),
+    ("src/internal/codepage.rs", None, "ascii_decode", "codepage"),
+    ("src/internal/codepage.rs", None, "ascii_encode", "propset"),
+    ("src/internal/summary.rs", "SummaryInfo", "arch", "propset"),
+    ("src/internal/summary.rs", "SummaryInfo", "set_arch", "propset"),
+    ("src/internal/summary.rs", "SummaryInfo", "languages", "propset"),
+    ("src/internal/summary.rs", "SummaryInfo", "set_languages", "propset"),
+    ("src/internal/summary.rs", "SummaryInfo", "clear_languages", "propset"),
+    ("src/internal/package.rs", "<F:Read+Write+Seek>Finish<F>forFinishImpl", "finish", "finish"),
+    ("src/internal/package.rs", "<F:Read+Write+Seek>Package<F>", "flush", "finish"),
+    ("src/internal/package.rs", "<F:Read+Write+Seek>Package<F>", "write_stream", "pkgstreams"),
+    ("src/internal/package.rs", "<F:Read+Write+Seek>Package<F>", "remove_stream", "pkgstreams"),
+    ("src/internal/package.rs", "<F:Read+Write+Seek>Package<F>", "remove_digital_signature", "pkgstreams"),
+    ("src/internal/package.rs", "<F:Read+Seek>Package<F>", "read_stream", "pkgstreams"),
+    ("src/internal/stream.rs", "<'a,F:'a>IteratorforStreams<'a,F>", "next", "streams"),
+    ("src/internal/stringpool.rs", "StringPoolBuilder", "build_from_data", "readers"),
+    ("src/internal/value.rs", "ValueRef", "to_value", "pool"),
+    ("src/internal/value.rs", "ValueRef", "remove", "pool"),
 ]
 
 OPS = [
@@ -69,7 +89,7 @@ def fn_span(src, masked, header, name):
     for it in extract.list_items(src, masked, 0, len(src), 0):
         if header is None and it[0] == "fn" and it[1] == name:
             return it[2], it[3]
-        if header is not None and it[0] == "impl" and re.sub(r"\s+", "", it[1]).endswith(header) and " for " not in it[1]:
+        if header is not None and it[0] == "impl" and re.sub(r"\s+", "", it[1]).endswith(header) and (" for " not in it[1] or "for" in header):
             b = extract.find_body_open(masked, it[4])
             for it2 in extract.list_items(src, masked, b + 1, it[3] - 1, 0):
                 if it2[0] == "fn" and it2[1] == name:
@@ -127,7 +147,7 @@ def main():
     try:
         allm = []
         for (rel, header, fn, group) in TARGETS:
-            if only and only not in fn and only not in group:
+            if only and not any(o in fn or o == group for o in only.split(",")):
                 continue
             src = open(os.path.join(wt, rel)).read()
             masked = extract.mask_source(src)
